@@ -69,7 +69,7 @@ static void dh_json_str(FILE *f, const char *s)
 }
 /* the current case of this worker, kept in memory shared with the parent so that a crash / hang inside the runtime
  * can be attributed: scen + pre-rendered JSON fields ("k":"v",...) */
-typedef struct { volatile long beat; char scen[64]; char kv[1900]; } dh_slot_t;
+typedef struct { volatile long beat; volatile long beat2 /* bumped by a worker while it supervises a forked case child */; char scen[64]; char kv[1900]; } dh_slot_t;
 static dh_slot_t dh_private_slot; static dh_slot_t *dh_slot = &dh_private_slot;
 static void dh_case(const char *scen, const char *fmt, ...)
 {
@@ -205,7 +205,7 @@ static void dh_pool(int J, dh_worker_fn fn, void *arg, dh_stats_t *total)
                 }
                 continue;
             }
-            if (slots[j].beat != lastbeat[j]) { lastbeat[j] = slots[j].beat; lastt[j] = dh_now(); }
+            if (slots[j].beat + slots[j].beat2 != lastbeat[j]) { lastbeat[j] = slots[j].beat + slots[j].beat2; lastt[j] = dh_now(); }
             else if (dh_now() - lastt[j] > dh_hang_s && slots[j].beat > 0) {
                 { char cmd[1800]; snprintf(cmd, sizeof(cmd), "mkdir -p %s/replay; timeout 20 gdb -p %d -batch -ex 'thread apply all bt 14' > %s/replay/%s-hang-w%d-stacks.txt 2>/dev/null", dh_outdir, (int)pids[j], dh_outdir, dh_property, j); if (system(cmd)) {} }
                 kill(pids[j], SIGKILL); waitpid(pids[j], &status, 0); close(fds[j][0]); done[j] = 1; left--;
@@ -238,6 +238,7 @@ static int dh_isolated(int (*fn)(void *), void *arg, double hang_s, char *err, s
         if (w == pid) break;
         if (dh_slot->beat != lb) { lb = dh_slot->beat; lt = dh_now(); }
         else if (dh_now() - lt > 0.6 * hang_s) { kill(pid, SIGKILL); waitpid(pid, &status, 0); dh_slot->beat++; unlink(path); return 3; }
+        dh_slot->beat2++;
         struct timespec ts = { 0, nap }; nanosleep(&ts, NULL); if (nap < 4000000) nap += nap / 2;
     }
     if (WIFEXITED(status)) rc = WEXITSTATUS(status) ? 1 : 0; else { rc = 2; *sig = WIFSIGNALED(status) ? WTERMSIG(status) : -1; }
